@@ -19,4 +19,5 @@ Ops_SW == (1 :> S) @@ (2 :> W)
 Ops_SWR == (1 :> S) @@ (2 :> W) @@ (3 :> R(1))
 Ops_SSW == (1 :> S) @@ (2 :> S) @@ (3 :> W)
 Ops_STW == (1 :> S) @@ (2 :> Tr(1))
+Ops_WWW == (1 :> W) @@ (2 :> W) @@ (3 :> W)           \* more admissions than the signal channel holds
 =============================================================================
